@@ -133,6 +133,8 @@ def call(ex, st, fn, args, kw, node):
     if name == "type":
         from .symexec import TypeOf
         yield st, TypeOf(args[0]); return
+    if name == "list" and len(args) == 1 and isinstance(args[0], UFL):
+        yield st, args[0]; return
     if name in ("list", "sorted") and isinstance(args[0], (list, tuple)) and not any(isinstance(x, (Sym, Ref)) for x in args[0]):
         yield st, (sorted(args[0]) if name == "sorted" else list(args[0])); return
     if name == "tuple":
